@@ -472,7 +472,11 @@ func (s *Server) handleConnReceiver(module *Module, crd *rsyncwire.CountingReade
 		// Descend into subdirectory (if requested),
 		// using the os.OpenRoot traversal-safe API.
 		if len(paths) == 1 && paths[0] != "/" {
-			subdir := strings.TrimPrefix(paths[0], "/")
+			// Clean the path: os.Root resolves a name with a trailing
+			// slash ("link/") through a symlink that leaves the root
+			// (at least up to Go 1.25), and extra slashes or dot
+			// segments serve no purpose here.
+			subdir := filepath.Clean(strings.TrimLeft(paths[0], "/"))
 			subRoot, err := rt.DestRoot.OpenRoot(subdir)
 			if err != nil {
 				if os.IsNotExist(err) {
